@@ -271,3 +271,40 @@ func vpSmallID() int32 {
 	vp.Assume(id >= 0 && id < 128)
 	return id
 }
+
+// NBT fields inside packets: a writer that fails at any offset of the field -
+// alone, and between two other fields of a Tuple - is reported; a stream that
+// ends or fails inside the field is an error.
+func VP_C09_nbtfield() {
+	type T struct {
+		A int32   `nbt:"a"`
+		S string  `nbt:"s"`
+		L []int64 `nbt:"l"`
+	}
+	v := T{A: vp.Int32(), S: string(vp.Bytes(2)), L: []int64{vp.Int64()}}
+	var enc FieldEncoder = NBT(v)
+	if vp.Choice(2) == 1 {
+		enc = Tuple{UnsignedByte(vp.Byte()), NBT(v), Short(vp.Int16())}
+	}
+	var probe bytes.Buffer
+	n, err := enc.WriteTo(&probe)
+	vp.Assert(err == nil && n == int64(probe.Len()), "WriteTo count")
+	total := probe.Len()
+	if vp.Choice(2) == 0 {
+		k := vp.Choice(total)
+		_, err = enc.WriteTo(&vpFailWriter{limit: k})
+		vp.Assert(err != nil, "write failure is reported")
+	} else {
+		var d T
+		var ub UnsignedByte
+		var sh Short
+		var dec FieldDecoder = NBT(&d)
+		if _, ok := enc.(Tuple); ok {
+			dec = Tuple{&ub, NBT(&d), &sh}
+		}
+		f := vp.Choice(total)
+		_, err = dec.ReadFrom(&vpFailReader{b: probe.Bytes(), failAt: f, eof: vp.Bool()})
+		vp.Assert(err != nil, "failure before the value is complete is reported")
+	}
+	vp.Cover("end")
+}
